@@ -33,6 +33,33 @@ def method(name, ensures, extra_rewrites=(), inserts=(), generic=False):
 OUT = "final(self).output.view() == old(self).output.view()"
 COMPOUND = [(r"-> Result<Self::Serialize\w+>", "-> Result<()>", 1, 1), (r"Ok\(self\)", "Ok(())", 1, 1)]   # D16: the compound-state value is the serializer itself
 
+
+# the seven compound-state impls (`impl<F> ser::SerializeX for &mut Serializer<F>`): every element / field / key / value appends exactly
+# its own wire form (field names never reach the output), `end` appends nothing. Same method names in several impls -> renamed on extraction.
+COMPOUND_IMPLS = [("SerializeSeq", "seq", ["serialize_element"]), ("SerializeTuple", "tuple", ["serialize_element"]),
+                  ("SerializeTupleStruct", "tuple_struct", ["serialize_field"]), ("SerializeTupleVariant", "tuple_variant", ["serialize_field"]),
+                  ("SerializeMap", "map", ["serialize_key", "serialize_value"]), ("SerializeStruct", "struct", ["serialize_field"]),
+                  ("SerializeStructVariant", "struct_variant", ["serialize_field"])]
+DEREF = (r"&mut \*\*self", "self", 1, 1)     # D15': `self` is `&mut &mut Serializer<F>` in the trait impl, `&mut Serializer<F>` in the inherent extraction
+
+
+def compound_items(tr, short, fns):
+    within = [r"^impl<F> ser::%s for &mut Serializer<F>" % tr]
+    out = []
+    for f in fns:
+        new = "%s_%s" % (short, f)
+        keyed = tr in ("SerializeStruct", "SerializeStructVariant")
+        out.append(dict(kind="fn", file=F, within=within, name=f, rename=new,
+                        qual="postcard::ser::serializer::<impl ser::%s for &mut Serializer<F>>::%s" % (tr, f),
+                        rewrites=[DEREF, (r"where\s+T: \?Sized \+ Serialize,", "where T: Serialize,", 1, 1), (r"_key: &'static str", "_key: &str", 0, 1)],
+                        sig="        ensures r is Ok ==> " + OUT + " + §p%d§.wire()   // @obl:C02.V.emit.%s" % (2 if keyed else 1, new),
+                        obls=["C02.V.emit." + new]))
+    new = "%s_end" % short
+    out.append(dict(kind="fn", file=F, within=within, name="end", rename=new,
+                    qual="postcard::ser::serializer::<impl ser::%s for &mut Serializer<F>>::end" % tr,
+                    rewrites=[RECV], sig="        ensures r is Ok && " + OUT + "   // @obl:C02.V.emit." + new, obls=["C02.V.emit." + new]))
+    return out
+
 UNIT = dict(
     name="emit",
     prelude=["varint.rs"],
@@ -105,6 +132,7 @@ pub fn str_as_bytes(v: &str) -> (r: &[u8]) ensures r@ == str_bytes(v) { v.as_byt
                extra_rewrites=COMPOUND),
         method("serialize_struct", "r is Ok && " + OUT, extra_rewrites=COMPOUND),
         method("serialize_struct_variant", "r is Ok ==> " + OUT + " + enc(§p2§ as nat)", extra_rewrites=COMPOUND),
+    ] + [it for tr, short, fns in COMPOUND_IMPLS for it in compound_items(tr, short, fns)] + [
         dict(kind="raw", name="<impl-close>", text="}\n"),
     ],
 )
